@@ -1,14 +1,15 @@
 (* C17 -- property theorems.  Statements + `exact` only; proofs live in Proofs/C17_*.v.
    All statements are about the models the correspondence run evaluates against partitura on
    every check: Model.C17_Spelling (spell_tab = ps13 stage 1 in front of p2pn), Model.C17_Voices
-   (the outer layer of estimate_voices; the VoSA search is the Section variable [oracle], the
-   theorems hold for EVERY function of that type) and Model.C17_Key (exact correlation
+   (the outer layer of estimate_voices; the VoSA search is the Section variable [oracle] and the
+   choice of the note that represents a chord the Section variable [rep]; the theorems hold for
+   EVERY function of those types) and Model.C17_Key (exact correlation
    comparison over the key profile matrices reflected into Gen/C17_KeyTab.v).
    Vocabulary: a spelling is (index into STEPS, alter, octave); midi_of = 12 (octave + 1) +
    pitch class of the step + alter; spell_tab kpre kpost rows = table (row, spelling) in the
    canonical (onset, pitch, duration) order, row = (onset, pitch, duration);
    mftc c0 c ct = morph of chroma c if the tonic had chroma ct and the first note chroma c0. *)
-From PV Require Import Lib.Base Gen.C17_PS13 Gen.C17_KeyTab
+From PV Require Import Lib.Base Gen.C17_PS13 Gen.C17_KeyTab Gen.C17_MidiTab
   Model.C17_Spelling Model.C17_Voices Model.C17_Key
   Proofs.C17_lib Proofs.C17_Spelling Proofs.C17_Voices Proofs.C17_VoicesTotal Proofs.C17_Key.
 From Coq Require Import Sorting.Permutation.
@@ -59,6 +60,27 @@ Theorem ps13_alter_bounded : forall kpre kpost rows r sp, (1 <= kpost)%nat ->
 Proof. exact ps13_alter_bounded_lemma. Qed.
 Print Assumptions ps13_alter_bounded.
 
+(* ... a bound that is sharp in K_post: with K_post = 0 a lone D#4 is spelled A with six sharps *)
+Theorem ps13_alter_needs_kpost :
+  map named_of (spell_tab 10 0 [(0, 63, 1)]) = [((0, 63, 1), ("A", 6, 3))]%string.
+Proof. exact ps13_alter_kpost0. Qed.
+Print Assumptions ps13_alter_needs_kpost.
+
+(* midi_of IS what partitura computes for a note: score.Note(step, octave, alter).midi_pitch, run on
+   the working tree for every step of STEPS, alter -2..2, octave 0..8 (finite, 315 notes) *)
+Theorem midi_of_is_note_midi_pitch : forall st al oc, In st ps_steps -> -2 <= al <= 2 -> 0 <= oc <= 8 ->
+  note_midi_pitch st al oc = midi_of_name st al oc /\ midi_of_name st al oc <> None.
+Proof. exact note_midi_pitch_spec. Qed.
+Print Assumptions midi_of_is_note_midi_pitch.
+
+(* hence a note of the range 21..108 spelled by ps13 (any array, any K_pre, K_post >= 1) is a Note whose
+   midi_pitch -- as partitura computes it -- is the row's pitch: what the MIDI importer relies on *)
+Theorem ps13_note_midi_pitch : forall kpre kpost rows r sp, (1 <= kpost)%nat ->
+  21 <= r_pitch r <= 108 -> In (r, sp) (spell_tab kpre kpost rows) ->
+  note_midi_pitch (step_name (sp_step sp)) (sp_alter sp) (sp_octave sp) = Some (r_pitch r).
+Proof. exact ps13_note_midi_pitch_lemma. Qed.
+Print Assumptions ps13_note_midi_pitch.
+
 (* the order of the input rows does not matter: the whole table is the same *)
 Theorem ps13_perm_invariant : forall kpre kpost rows rows',
   Permutation rows rows' -> spell_tab kpre kpost rows = spell_tab kpre kpost rows'.
@@ -74,41 +96,52 @@ Proof. exact ps13_order_independent_lemma. Qed.
 Print Assumptions ps13_order_independent.
 
 (* ================================================================== *)
-(* O2  voices (for every oracle, i.e. every behaviour of the VoSA search) *)
+(* O2  voices (for every oracle, i.e. every behaviour of the VoSA search, and every choice rep of
+   the note that represents a chord) *)
 
-(* the oracle answers exactly the representatives it was given  ==>  every note gets a voice
-   (zero-duration notes are ordinary notes of this layer) *)
-Theorem voices_total : forall oracle mono notes,
+(* rep picks a member of the chord and the oracle answers the representatives it was given (as a
+   set)  ==>  every note gets a voice (zero-duration notes are ordinary notes of this layer) *)
+Theorem voices_total : forall rep oracle,
+  (forall ins ids, ids <> [] -> In (rep ins ids) ids) ->
+  forall mono notes,
   let ins := indexed_from 0 notes in
-  let inp := vosa_input ins (equivs_of mono ins) in
+  let inp := vosa_input ins (equivs_with (rep ins) mono ins) in
   oracle_total_on inp (oracle inp) = true ->
-  exists out, estimate_voices oracle mono notes = Some out /\ List.length out = List.length notes.
+  exists out, estimate_voices rep oracle mono notes = Some out /\ List.length out = List.length notes.
 Proof. exact voices_total_lemma. Qed.
 Print Assumptions voices_total.
 
+(* both the code's choice (argmax_pitch: the first note of maximal pitch) and the choice the checker
+   reads off the ids the implementation handed to VoSA are such members *)
+Theorem representative_choices_are_members :
+  (forall ins ids, ids <> [] -> In (rep_of ins ids) ids) /\
+  (forall vin ins ids, ids <> [] -> In (rep_obs vin ins ids) ids).
+Proof. exact (conj rep_of_is_member rep_obs_is_member). Qed.
+Print Assumptions representative_choices_are_members.
+
 (* one voice per note; the numbers used are exactly 1..K (no gaps), K >= 1 unless there is no note *)
-Theorem voices_wellformed : forall oracle mono notes out,
-  estimate_voices oracle mono notes = Some out ->
+Theorem voices_wellformed : forall rep oracle mono notes out,
+  estimate_voices rep oracle mono notes = Some out ->
   List.length out = List.length notes /\
   exists K, 0 <= K /\ (notes <> [] -> 1 <= K) /\ forall t, In t out <-> 1 <= t <= K.
 Proof. exact voices_wellformed_lemma. Qed.
 Print Assumptions voices_wellformed.
 
-Theorem voices_positive : forall oracle mono notes out v,
-  estimate_voices oracle mono notes = Some out -> In v out -> 1 <= v.
+Theorem voices_positive : forall rep oracle mono notes out v,
+  estimate_voices rep oracle mono notes = Some out -> In v out -> 1 <= v.
 Proof. exact voices_positive_lemma. Qed.
 Print Assumptions voices_positive.
 
 (* chord mode: notes with identical onset and duration get the same voice *)
-Theorem chord_mode_same_voice : forall oracle notes out i j ni nj,
-  estimate_voices oracle false notes = Some out ->
+Theorem chord_mode_same_voice : forall rep oracle notes out i j ni nj,
+  estimate_voices rep oracle false notes = Some out ->
   nth_error notes i = Some ni -> nth_error notes j = Some nj ->
   vn_onset ni = vn_onset nj -> vn_dur ni = vn_dur nj ->
   nth_error out i = nth_error out j.
 Proof. exact chord_mode_same_voice_lemma. Qed.
 Print Assumptions chord_mode_same_voice.
 
-Theorem mono_mode_identity_map : forall ins, equivs_of true ins = map (fun x => (fst x, [fst x])) ins.
+Theorem mono_mode_identity_map : forall rp ins, equivs_with rp true ins = map (fun x => (fst x, [fst x])) ins.
 Proof. exact mono_mode_identity_map_lemma. Qed.
 Print Assumptions mono_mode_identity_map.
 
@@ -121,14 +154,14 @@ Proof. exact key_name_valid_lemma. Qed.
 Print Assumptions key_name_valid.
 
 (* ... which are format_key of the implementation's KEYS (run on the working tree), each accepted by
-   key_name_to_fifths_mode with the fifths and mode of its KEYS entry (tabulated), laid out as
+   key_name_to_fifths_mode (tabulated) with the mode of its KEYS entry and a number of fifths in -7..7
+   whose tonic is the pitch class the name spells (key_names_parse_ok), laid out as
    index i < 12: major, tonic pitch class i; index 12 + i: minor, tonic pitch class i *)
 Theorem key_names_are_the_implementations : key_names = key_names_impl.
 Proof. exact key_names_impl_lemma. Qed.
 Print Assumptions key_names_are_the_implementations.
 
-Theorem key_names_parse :
-  key_parse_tab = map (fun kn => (snd kn, Some (snd (fst kn), snd (fst (fst kn))))) (combine keys_table key_names).
+Theorem key_names_parse : key_names_parse_ok = true.
 Proof. exact key_names_parse_lemma. Qed.
 Print Assumptions key_names_parse.
 
@@ -187,6 +220,27 @@ Theorem key_transpose_names : forall s ns j i,
 Proof. exact key_transpose_names_lemma. Qed.
 Print Assumptions key_transpose_names.
 
+(* the clause in the property's own words: the estimated TONIC (pitch class spelled by the root of the
+   KEYS entry) moves by j semitones, the MODE stays -- read from the KEYS entries the names are made of *)
+Theorem key_transpose_tonic : forall s ns j i,
+  unique_max (key_lt (profile_set s) (ky_hist ns)) i ->
+  let k := estimate_key_idx (profile_set s) ns in
+  let k' := estimate_key_idx (profile_set s) (transpose j ns) in
+  key_tonic_pc k' = (key_tonic_pc k + j) mod 12 /\ key_mode k' = key_mode k /\
+  estimate_key (profile_set s) ns = nth (Z.to_nat k) key_names "?"%string /\
+  estimate_key (profile_set s) (transpose j ns) = nth (Z.to_nat k') key_names "?"%string.
+Proof. exact key_transpose_tonic_lemma. Qed.
+Print Assumptions key_transpose_tonic.
+
+(* the unique-maximum hypothesis cannot be dropped: the chromatic cluster ties all 24 keys, the first
+   key wins before and after transposing by a semitone *)
+Theorem key_transpose_needs_unique_max :
+  let ns := map (fun p => (p, 1)) (zrange 60 12) in
+  estimate_key_idx (profile_set 0) ns = 0 /\ estimate_key_idx (profile_set 0) (transpose 1 ns) = 0 /\
+  rot_key 1 0 = 1.
+Proof. exact key_transpose_tie_example. Qed.
+Print Assumptions key_transpose_needs_unique_max.
+
 (* ================================================================== *)
 (* the hypotheses are satisfiable / the models evaluate (concrete non-trivial inputs) *)
 
@@ -204,9 +258,17 @@ Theorem voices_example_total :
   let notes := [(60, 0, 4); (72, 0, 2); (67, 0, 2); (74, 2, 0)] in
   let ins := indexed_from 0 notes in
   oracle_total_on (vosa_input ins (equivs_of false ins)) [(0, 0); (3, 1); (1, 1)] = true /\
-  estimate_voices (fun _ => [(0, 0); (3, 1); (1, 1)]) false notes = Some [2; 1; 1; 1].
+  estimate_voices rep_of (fun _ => [(0, 0); (3, 1); (1, 1)]) false notes = Some [2; 1; 1; 1].
 Proof. exact (conj voices_total_example voices_example). Qed.
 Print Assumptions voices_example_total.
+
+(* the same notes when the implementation is observed to hand the LOWER chord note (id 2) to VoSA, in
+   another order: the checker follows the observed member *)
+Theorem voices_example_other_representative :
+  voices_check (false, [(60, 0, 4); (72, 0, 2); (67, 0, 2); (74, 2, 0)], [3; 2; 0],
+                [(0, 0); (3, 1); (2, 1)], [2; 1; 1; 1]) = true.
+Proof. exact voices_other_representative. Qed.
+Print Assumptions voices_example_other_representative.
 
 (* a C major triad: key 0 (C major) beats the 23 others strictly, so the triad a third higher is E *)
 Theorem key_unique_max_satisfiable :
